@@ -184,9 +184,9 @@ def ident(c):
 
 
 def describe(c, out, rej):
-    return '%r (inline=%s css2=%s) -> %r rejected at item %s' % (
+    return '%r (inline=%s css2=%s) -> %r %s' % (
         c['src'].decode('latin1')[:300], c['inline'], c['css2'], out.decode('latin1')[:300],
-        '; '.join('%d: %s' % (i, w) for i, w in rej[:4]))
+        ('rejected at item ' + '; '.join('%d: %s' % (i, w) for i, w in rej[:4])) if rej else 'accepted')
 
 
 
@@ -427,6 +427,9 @@ def excluded(F, prop, text, lexs, css2):
     if fam == 'num' and css2 and re.match(r'^[+-]?0*\.?0*e', lexs[0], re.I) and re.match(r'^[+-]?0', lexs[0]):
         return 'KeepCSS2: zero with an exponent part (0e5)'
     if fam == 'font':
+        sizeish = [j for j, x in enumerate(lexs) if re.match(r'^[\d.]', x) and j > 0 and lexs[j - 1] == '/' or re.match(r'^([\d.]+(px|em|%)|0|medium)$', x, re.I)]
+        if len(sizeish) >= 2 and any(lexs[j].lower() == 'medium' for j in sizeish[1:]):
+            return 'font: a font-size keyword as a word of the family name'
         isid = lambda x: re.match(r'^-?[A-Za-z_]', x) is not None
         for j in range(len(lexs)):
             if re.match(r'^-[A-Za-z_-]', lexs[j]) and ((j + 1 < len(lexs) and isid(lexs[j + 1])) or (j > 0 and isid(lexs[j - 1]))):
